@@ -666,7 +666,9 @@ def queue_position_decided_by_the_listing(ck, m):
     fam = [rb] + [P.bodies[k] for k in P.bodies if k.startswith(rb.id + '::{closure')]
     n, bad = 0, []
     for b in fam:
-        lasts = {bi for bi, t in b.calls() if callee_decl(t).split('::')[-1] in ('last', 'last_mut', 'pop') and ('slice' in callee_decl(t) or 'Vec' in callee_decl(t))}
+        # the listing of the key's conflict records (and, when present, the `.last()` taken of it): whatever form the test takes
+        # (`match list.last()`, `if list.is_empty()`, an index), the branch depends on this call
+        lasts = {bi for bi, t in b.calls() if any(x in callee(t) for x in ('list_conflicts_keys',))}
         if not lasts:
             continue
         for sw in b.reachable():
